@@ -217,6 +217,32 @@ func msgsFileDesc() protoreflect.FileDescriptor {
 	return msgsFD
 }
 
+// msgsFileDescRev is a NEWER REVISION of the same messages file: every message has a field added in front of the others
+// (new number, so wire- and name-compatible; but every field index moves up by one).  A mux configured with these
+// descriptors (FilesOption) in front of handlers built against the older revision is what a rolling upgrade looks like.
+var (
+	msgsRevOnce sync.Once
+	msgsRevFD   protoreflect.FileDescriptor
+)
+
+func msgsFileDescRev() protoreflect.FileDescriptor {
+	msgsRevOnce.Do(func() {
+		fdp := msgsProto()
+		for _, m := range fdp.MessageType {
+			if m.GetName() == "Req" || m.GetName() == "Sub" || m.GetName() == "Leaf" || m.GetName() == "Rep" {
+				added := mkField(fdef{name: "zz_added_in_rev", num: 900, typ: tString})
+				m.Field = append([]*descriptorpb.FieldDescriptorProto{added}, m.Field...)
+			}
+		}
+		fd, err := protodesc.NewFile(fdp, protoregistry.GlobalFiles)
+		if err != nil {
+			panic(err)
+		}
+		msgsRevFD = fd
+	})
+	return msgsRevFD
+}
+
 func reqDesc() protoreflect.MessageDescriptor { return msgsFileDesc().Messages().ByName("Req") }
 func repDesc() protoreflect.MessageDescriptor { return msgsFileDesc().Messages().ByName("Rep") }
 func subDesc() protoreflect.MessageDescriptor { return msgsFileDesc().Messages().ByName("Sub") }
@@ -253,8 +279,17 @@ var fileSeq struct {
 // BuildFiles creates one file per service (so that services can live in
 // different packages) and a registry holding them plus the messages file.
 func BuildFiles(svcs []ServiceSpec) (*protoregistry.Files, []protoreflect.ServiceDescriptor, error) {
+	return buildFilesWith(msgsFileDesc(), svcs)
+}
+
+// BuildFilesRev: the same services over the newer revision of the messages (for the mux's FilesOption).
+func BuildFilesRev(svcs []ServiceSpec) (*protoregistry.Files, []protoreflect.ServiceDescriptor, error) {
+	return buildFilesWith(msgsFileDescRev(), svcs)
+}
+
+func buildFilesWith(msgs protoreflect.FileDescriptor, svcs []ServiceSpec) (*protoregistry.Files, []protoreflect.ServiceDescriptor, error) {
 	files := &protoregistry.Files{}
-	if err := files.RegisterFile(msgsFileDesc()); err != nil {
+	if err := files.RegisterFile(msgs); err != nil {
 		return nil, nil, err
 	}
 	var sds []protoreflect.ServiceDescriptor
